@@ -272,6 +272,63 @@ static void op_nomain(const V &a, V &r) {
     }
     r.push_back(mism); r.push_back(evals);
 }
+// handover <spec> nthreads iters seed : objects of the FFT domain are created by one thread and transformed by another - each object is used
+//   by one thread at a time (no sharing), and the shared key is only read:
+//   phase 1  the main thread allocates the Lagrange temporaries of every worker; the workers run ifft / product / fft on them while the
+//            main thread does the same on its own and evaluates gates; workers also convert rows of the const FFT key back;
+//   phase 2  a helper thread allocates the temporaries and exits before anybody transforms them.
+//   Every result is compared with the sequential reference computed beforehand.  prints: phase-1 product mismatches, row-conversion
+//   mismatches, gate mismatches, phase-2 mismatches, operations
+struct HItem { IntPolynomial *A; TorusPolynomial *B, *R; LagrangeHalfCPolynomial *la, *lb, *lc; uint64_t ref; };
+// own_result: the result operand of the Lagrange-domain product is allocated by the calling thread (the library binds the *result* of
+// Lagrange arithmetic to the FFT processor of the thread that allocated it: with a creator that has exited that is outside what the
+// property covers - gates only ever use results allocated by the calling thread); the transforms must work on anybody's objects
+static uint64_t hitem_run(HItem &it, bool own_result = false) { const int N = 1024;
+    LagrangeHalfCPolynomial *lc = own_result ? new_LagrangeHalfCPolynomial(N) : it.lc;
+    IntPolynomial_ifft(it.la, it.A); TorusPolynomial_ifft(it.lb, it.B); LagrangeHalfCPolynomialMul(lc, it.la, it.lb); TorusPolynomial_fft(it.R, lc);
+    uint64_t h = fnv(it.R->coefsT, 4 * N);
+    if (own_result) { TorusPolynomial_fft(it.R, it.lb); h = fnv(it.R->coefsT, 4 * N, h + 1); delete_LagrangeHalfCPolynomial(lc); }   // and a transform back from the foreign object
+    return h; }
+static void op_handover(const V &a, V &r) {
+    need_keys(a);
+    const int N = 1024, n = cur.params->in_out_params->n; const ll *v = a.data() + SPECN; const int nt = (int) v[0], iters = (int) v[1];
+    const TGswParams *gp = cur.params->tgsw_params; const TLweParams *tp = gp->tlwe_params; const int k = tp->k;
+    const LweBootstrappingKeyFFT *bf = cur.sk->cloud.bkFFT;
+    std::mt19937 rg((unsigned) v[2]);
+    auto mk = [&](HItem &it, bool with_lagrange) { it.A = new_IntPolynomial(N); it.B = new_TorusPolynomial(N); it.R = new_TorusPolynomial(N);
+        for (int j = 0; j < N; j++) { it.A->coefs[j] = (int32_t) (rg() % 1024) - 512; it.B->coefsT[j] = (int32_t) rg(); }
+        if (with_lagrange) { it.la = new_LagrangeHalfCPolynomial(N); it.lb = new_LagrangeHalfCPolynomial(N); it.lc = new_LagrangeHalfCPolynomial(N); } else it.la = it.lb = it.lc = 0; };
+    auto rm = [&](HItem &it) { delete_LagrangeHalfCPolynomial(it.lc); delete_LagrangeHalfCPolynomial(it.lb); delete_LagrangeHalfCPolynomial(it.la);
+        delete_TorusPolynomial(it.R); delete_TorusPolynomial(it.B); delete_IntPolynomial(it.A); };
+    const int per = 3; std::vector<HItem> items((nt + 1) * per), late(nt * per);
+    for (auto &it : items) { mk(it, true); it.ref = hitem_run(it); }                       // sequential reference, main thread, main thread's objects
+    // rows of the const key converted back, sequentially
+    const int nrows = 4; std::vector<uint64_t> rowref(nrows);
+    auto conv = [&](int row) { TLweSample *t = new_TLweSample(tp); tLweFromFFTConvert(t, &bf->bkFFT[row % n].all_samples[row % gp->kpl], tp);
+        uint64_t h = 0; for (int q = 0; q <= k; q++) h = fnv(t->a[q].coefsT, 4 * N, h + 7); delete_TLweSample(t); return h; };
+    for (int q = 0; q < nrows; q++) rowref[q] = conv(q);
+    std::vector<Work> ws; make_work(ws, 4, n, (unsigned) v[2] + 1); for (auto &wk : ws) eval_work(wk, wk.ref, n);
+    std::atomic<long> m1(0), mrow(0), mg(0), m2(0), ops(0);
+    {   std::vector<std::thread> th;
+        for (int t = 0; t < nt; t++) th.emplace_back([&, t]() { for (int i = 0; i < iters; i++) { for (int q = 0; q < per; q++) { HItem &it = items[t * per + q]; if (hitem_run(it) != it.ref) m1++; ops++; }
+            int row = (i + t) % nrows; if (conv(row) != rowref[row]) mrow++; ops++; } });
+        for (int i = 0; i < iters; i++) { for (int q = 0; q < per; q++) { HItem &it = items[nt * per + q]; if (hitem_run(it) != it.ref) m1++; ops++; }
+            std::vector<int32_t> o; eval_work(ws[i % 4], o, n); if (o != ws[i % 4].ref) mg++; ops++; }
+        for (auto &t : th) t.join(); }
+    // phase 2: the creator of the temporaries is gone
+    for (auto &it : late) mk(it, false);
+    { std::thread creator([&]() { for (auto &it : late) { it.la = new_LagrangeHalfCPolynomial(N); it.lb = new_LagrangeHalfCPolynomial(N); it.lc = new_LagrangeHalfCPolynomial(N); }
+          HItem &w = late[0]; hitem_run(w, true); });                                            // it used its own FFT state before exiting
+      creator.join(); }
+    for (size_t q = 0; q < late.size(); q++) {   // reference through objects of the main thread
+        HItem tmp = late[q]; tmp.la = items[0].la; tmp.lb = items[0].lb; tmp.lc = items[0].lc; late[q].ref = hitem_run(tmp, true); }
+    {   std::vector<std::thread> th;
+        for (int t = 0; t < nt; t++) th.emplace_back([&, t]() { for (int i = 0; i < iters; i++) for (int q = 0; q < per; q++) { HItem &it = late[t * per + q]; if (hitem_run(it, true) != it.ref) m2++; ops++; } });
+        for (auto &t : th) t.join();
+        for (int q = 0; q < per && q < (int) late.size(); q++) { if (hitem_run(late[q], true) != late[q].ref) m2++; ops++; } }
+    for (auto &it : late) rm(it); for (auto &it : items) rm(it);
+    r.push_back(m1); r.push_back(mrow); r.push_back(mg); r.push_back(m2); r.push_back(ops);
+}
 // history <spec> seed : the same evaluations after different histories on the same thread
 static void op_history(const V &a, V &r) {
     need_keys(a);
@@ -378,6 +435,7 @@ int main() {
         else if (op == "keythread") op_keythread(a, r);
         else if (op == "refhash") op_refhash(a, r);
         else if (op == "nomain") op_nomain(a, r);
+        else if (op == "handover") op_handover(a, r);
         else if (op == "history") op_history(a, r);
         else if (op == "footprint") op_footprint(a, r);
         else if (op == "poison") op_poison(a, r);
